@@ -192,6 +192,27 @@ pub fn run(thorough: bool, seed: u64, _replay: Option<String>) -> Report {
         let mut base = Sett::default();
         base.steps = 1;
         base.chunk = bytes.len() + 1;
+        // any window with steps x chunk_size >= length is a single-chunk analysis: besides the roomy one, use
+        // windows that fit exactly (length = steps x chunk_size, one or several steps) and barely
+        let len = bytes.len();
+        match i % 4 {
+            1 => base.chunk = len,
+            2 => {
+                if let Some(d) = [2usize, 3, 4, 5, 7, 8, 10].iter().copied().filter(|d| len % d == 0 && len > 0).last() {
+                    base.steps = d;
+                    base.chunk = len / d;
+                } else {
+                    base.steps = 2;
+                    base.chunk = len / 2 + 1;
+                }
+            }
+            3 => {
+                base.steps = rng.range(2, 6);
+                base.chunk = len / base.steps + 1;
+            }
+            _ => {}
+        }
+        rep.count(&format!("sweep:window:{}", if base.steps * base.chunk == len { "exact-fit" } else if base.steps == 1 { "roomy" } else { "several-steps" }));
         base.incl = vec![enc.to_string()];
         base.thr = 1.0;
         base.fb = false;
@@ -216,6 +237,19 @@ pub fn run(thorough: bool, seed: u64, _replay: Option<String>) -> Report {
                         rep.fail("oracle", "C19:listed-below-threshold", &format!("lthr {}", t), &bytes, Some(&s), enc);
                     }
                     lists.push((t, coh.iter().map(|(l, s)| (format!("{}", l), *s)).collect()));
+                    // the same call under the roomy window (1, len + 1) must list the same languages with the same scores
+                    if s.steps != 1 || s.chunk != len + 1 {
+                        let mut s1 = s.clone();
+                        s1.steps = 1;
+                        s1.chunk = len + 1;
+                        if let Ok(Ok(ms1)) = real_detect_raw(&bytes, &s1) {
+                            let a: Vec<(String, u32)> = coh.iter().map(|(l, x)| (format!("{}", l), x.to_bits())).collect();
+                            let b: Option<Vec<(String, u32)>> = ms1.iter().find(|m| m.encoding() == enc).map(|m| vh::match_coherences(m).iter().map(|(l, x)| (format!("{}", l), x.to_bits())).collect());
+                            if b.as_ref() != Some(&a) {
+                                rep.fail("oracle", "C19:covering-window-not-analysed-as-a-single-chunk", &format!("lthr {}: steps={} chunk={} lists {:?} but steps=1 chunk={} lists {:?}", t, s.steps, s.chunk, a, len + 1, b), &bytes, Some(&s), enc);
+                            }
+                        }
+                    }
                 }
             }
         }
